@@ -43,6 +43,10 @@ def floors(tier):
 
 
 def frame_digest(df):
+    if isinstance(df, dict):
+        return hashlib.sha1("|".join(k + ":" + frame_digest(v) for k, v in sorted(df.items())).encode()).hexdigest()
+    if isinstance(df, pd.DataFrame) and any(str(t).startswith("datetime") for t in df.dtypes):
+        return hashlib.sha1(pd.util.hash_pandas_object(df, index=True).values.tobytes() + repr(list(df.columns)).encode()).hexdigest()
     h = hashlib.sha1()
     h.update(repr(tuple(df.shape)).encode())
     h.update(repr(list(map(str, df.index[:3]))).encode() + repr(len(df.index)).encode())
@@ -113,7 +117,7 @@ def seeded_run(t, cs):
 def case_iso(cs):
     ins.install()
     ins.reset()
-    spec = w2.gen(cs, solvers=False)
+    spec = w2.gen(cs, solvers=False, closeroll=0.25)
     sig = w2.signature(spec)
     sample = w2.sample_of(spec)
     idx, data, extras = w2.frames_of(spec)
@@ -243,7 +247,7 @@ def child_main(argv):
     out = []
     for j in range(n):
         cs = cs0 + j
-        spec = w2.gen(cs, solvers=False)
+        spec = w2.gen(cs, solvers=False, closeroll=0.25)
         ins.reset()
         r = w2.run(spec)
         if r.exc is not None:
@@ -273,7 +277,7 @@ def case_hashseed(cs, build):
     sigs = []
     for j in range(BATCH):
         vals = [r[j] for r in runs]
-        spec = w2.gen(cs + j, solvers=False)
+        spec = w2.gen(cs + j, solvers=False, closeroll=0.25)
         if vals[0].startswith("exc:"):
             if len(set(vals)) == 1:
                 o = common.result(common.OOD, why="run raises (decided by C10)")
